@@ -17,9 +17,11 @@
 package messageview
 
 import (
+	"bufio"
 	"bytes"
 	"compress/flate"
 	"compress/gzip"
+	"compress/zlib"
 	"fmt"
 	"io"
 	"io/ioutil"
@@ -267,7 +269,13 @@ func (mv *MessageView) BodyReader(opts ...Option) (io.ReadCloser, error) {
 		}
 		return gr, nil
 	case "deflate":
-		return flate.NewReader(r), nil
+		// RFC 7230 defines the deflate coding as zlib-wrapped data, but raw deflate streams under
+		// this label are common too: tell them apart by the zlib header.
+		br := bufio.NewReader(r)
+		if hdr, err := br.Peek(2); err == nil && hdr[0]&0x0f == 8 && (uint16(hdr[0])<<8|uint16(hdr[1]))%31 == 0 {
+			return zlib.NewReader(br)
+		}
+		return flate.NewReader(br), nil
 	default:
 		return ioutil.NopCloser(r), nil
 	}
